@@ -131,6 +131,42 @@ def chunk_replay(durations):
                 note="real EngineBuilder.build() / Engine on real jax")
 
 
+def stan_twice(chk):
+    """concrete history: the schedule generator hands out a fresh list of fresh epoch configurations on every call -- customising one result
+    (appending an epoch, editing a duration) must not show up in the next call with the same arguments, nor in EngineBuilder.set_duration"""
+    import liesel.goose as gs
+    from liesel.goose.epoch import EpochConfig, EpochType
+    from liesel.goose.warmup import stan_epochs
+
+    def view(eps):
+        return [(int(e.type), int(e.duration), int(e.thinning)) for e in eps]
+
+    def run():
+        pr = []
+        for args, kw in (((300, 80), dict(term_duration=40, thinning_posterior=1, thinning_warmup=1)), ((200, 40), {})):
+            first = stan_epochs(*args, **kw)
+            ref = view(first)
+            first.append(EpochConfig(EpochType.POSTERIOR, 10, 1, None))
+            first.insert(len(first) - 2, EpochConfig(EpochType.BURNIN, 60, 1, None))
+            try:
+                first[1].duration = first[1].duration + 7
+            except Exception:
+                pass
+            second = stan_epochs(*args, **kw)
+            if view(second) != ref:
+                pr.append(f"stan_epochs{args}{kw}: second call returns {view(second)[:4]}... (first call, before the caller customised its list: {ref[:4]}...)")
+            if args == (300, 80):
+                b = gs.EngineBuilder(1, 1)
+                b.set_duration(300, 80, term_duration=40)
+                if view(b.epochs) != ref:
+                    pr.append(f"EngineBuilder.set_duration(300, 80, term_duration=40) installs {view(b.epochs)[:4]}... instead of {ref[:4]}...")
+        return pr
+    pr = chk.guarded("stan-twice", "stan_epochs called twice with a customised result in between", run)
+    if pr:
+        chk.violation("stan-twice", "the schedule generator's results are not independent of each other: " + "; ".join(pr[:2]), dict(reproduced=True, observed=dict(problems=pr), note="concrete history on the real code"))
+    chk.enumerated.append("history: stan_epochs twice with the same arguments, first result customised in between (also through EngineBuilder.set_duration)")
+
+
 def main():
     chk = Check("C16")
     M = "vf.ch.h_c16"
@@ -150,6 +186,8 @@ def main():
     import os
     if os.environ.get("VERIF_ONLY") in (None, "", "chunk-large"):
         chunk_large(chk)
+    if os.environ.get("VERIF_ONLY") in (None, "", "stan-twice"):
+        stan_twice(chk)
     chk.functions += ["liesel.goose.epoch.EpochManager.__init__/append/next/has_more", "liesel.goose.epoch.EpochConfig.to_state", "liesel.goose.epoch.EpochType.is_warmup", "liesel.goose.warmup.stan_epochs", "liesel.goose.builder.EngineBuilder.build (chunk length)"]
     chk.bounds += ["schedules of <= 3 epochs (thorough: 4) with symbolic type in 0..4, unbounded symbolic duration and thinning", f"builder chunk: three symbolic durations <= 24 (CrossHair, Euclid executed) and <= {DMAX} (Engine C, gcd as a contract)", "stan_epochs: warmup <= 3000 (thorough 1e5), all seven arguments symbolic, posterior thinning 1..6 with posterior = thinning * q"]
     chk.assume("admissible stan_epochs arguments: init, term, base >= 1; warmup >= max(20, init+term+base); 1 <= thinning_warmup <= min(init, term, base); thinning_posterior divides posterior; base = 0 (non-terminating loop) excluded",
